@@ -1478,6 +1478,25 @@ def schema_contracts(specs):
                     if (nm_ == '__append' or nm_.startswith('__append_') or nm_.startswith('__stream_')) \
                             and nm_ not in stores:
                         inherited.append('%s uses `%s` without binding it from its own stream' % (fd.name, nm_))
+        # C10 (the linking condition behind B.33): `__quote` / `__convert` read the i18n settings
+        # (`__i18n_domain`, `__i18n_context`, `target_language`) as FREE variables.  Every emitted function
+        # that has those settings as its own parameters - render functions, macro bodies, slot fillers -
+        # and inserts a value must therefore define the two helpers itself; a helper inherited through
+        # the closure translates with the settings of the function it was defined in
+        i18n_inherited = []
+        for fd in ast.walk(ast.parse(em.source)):
+            if isinstance(fd, ast.FunctionDef) and '__i18n_domain' in [a_.arg for a_ in fd.args.args]:
+                loads = {n_.id for n_ in own_nodes(fd) if isinstance(n_, ast.Name) and isinstance(n_.ctx, ast.Load)}
+                defined = {x.name for x in fd.body if isinstance(x, ast.FunctionDef)}
+                for nm_ in ('__quote', '__convert'):
+                    if nm_ in loads and nm_ not in defined:
+                        i18n_inherited.append('%s calls `%s` of an enclosing function (which reads THAT '
+                                              "function's i18n settings)" % (fd.name, nm_))
+        static.append(('%s.i18n_helpers_local' % s['id'], not i18n_inherited,
+                       'every emitted function that takes the i18n settings as parameters defines the '
+                       'conversion helpers it calls (__quote, __convert) itself, so that an inserted value '
+                       'is translated with the settings in force where it is inserted',
+                       {'template': s['text'], 'functions': i18n_inherited}))
         static.append(('%s.scope_helpers_local' % s['id'], not inherited,
                        'every emitted function binds the lookup helpers it uses (get, getname) from its own '
                        'econtext and the append helpers from its own stream', {'template': s['text'], 'functions': inherited}))
